@@ -20,10 +20,15 @@ Class ops (T : Type) := {
   gcos   : T -> T;                 (* math.cos  *)
   gsin   : T -> T;                 (* math.sin  *)
   gatan2 : T -> T -> T;            (* math.atan2 y x *)
+  gtan   : T -> T;                 (* math.tan *)
+  gpi    : T;                      (* math.pi *)
+  gradians : T -> T;               (* math.radians: degrees to radians *)
+  ground : T -> Z -> T;            (* round(x, n): n decimal digits, ties to even *)
   gltb   : T -> T -> bool;         (* x < y  *)
   geqb   : T -> T -> bool          (* x == y *)
 }.
 Arguments gofZ {T _} _%Z.
+Arguments ground {T _} _ _%Z.
 
 Declare Scope G_scope.
 Delimit Scope G_scope with G.
